@@ -38,7 +38,7 @@ def _fabricate(runs):
 
 
 def run(sc, tier, replay):
-    off = ["nodupkey", "nodirid", "nofragdirs"]
+    off = ["nodirid", "nofragdirs"]
     strata = {"core-faults": (off + ["oddids", "richargs"], 1.0, "faults")}
     return fedcheck.run_fed_check(
         sc, tier, PID, ["C09", "C01"], "fault_enumeration",
